@@ -9,7 +9,7 @@ let parse_req (t : string) : req =
   (* likewise an optional body letter (l h r j): the request is a POST with a body *)
   let t = if String.length t > 5
              && (let ok = ref true in
-                 String.iteri (fun k c -> if k >= 5 && not (String.contains "01234lhrj" c) then ok := false) t; !ok)
+                 String.iteri (fun k c -> if k >= 5 && not (String.contains "0123456789lhrj" c) then ok := false) t; !ok)
           then String.sub t 0 5 else t in
   if String.length t <> 5 then raise (Bad t);
   let has set c = String.contains set c in
@@ -81,6 +81,7 @@ let clause_name = function
   | CSkip -> "skip_means_no_upstream_and_200_through_resmod"
   | CScope -> "modifiers_see_exactly_the_requests_sent"
   | CRelay -> "upstream_contacted_and_status_is_origins"
+  | CPresented -> "every_request_sent_is_read"
 
 (* concurrent batch: P nconn nreq / E.conn.ctx.sess ... F.live *)
 let judge_conc ins outs =
